@@ -42,7 +42,9 @@ CHARS2 = {9: "uint8", 10: "bool", 11: "float", 13: "uint32", 14: "uint16", 15: "
 
 def accessories(table=None):
     chars = [{"iid": 2, "type": "23", "perms": ["pr"], "format": "string", "value": "Acc"}]
-    svc2 = [{"iid": i, "type": f"{0x100 + i:X}", "perms": ["pr", "pw", "ev"], "format": f} for i, f in (table or CHARS).items()]
+    # (permissions vary: an event-only characteristic and a vendor one whose signature gave no permissions at all - a broadcast for them is a
+    # broadcast like any other)
+    svc2 = [{"iid": i, "type": f"{0x100 + i:X}", "perms": {12: ["ev"], 15: [], 14: ["pr", "ev"]}.get(i, ["pr", "pw", "ev"]), "format": f} for i, f in (table or CHARS).items()]
     return [{"aid": 1, "services": [{"iid": 1, "type": "3E", "characteristics": chars}, {"iid": 8, "type": "43", "characteristics": svc2}]}]
 
 
@@ -87,14 +89,15 @@ class Rig:
     def state_b(self):
         return (self.pairing_b.description.state_num if self.pairing_b.description else None, len(self.log_b))
 
-    def feed(self, data: bytes, address="00:11:22:33:44:55"):
+    def feed(self, data: bytes, address="00:11:22:33:44:55", run=True):
         from bleak.backends.device import BLEDevice
         from bleak.backends.scanner import AdvertisementData
 
         dev = BLEDevice(address, "Acc", {})
         adv = AdvertisementData(local_name="Acc", manufacturer_data={76: data}, service_data={}, service_uuids=[], tx_power=None, rssi=-60, platform_data=())
         self.controller._device_detected(dev, adv)
-        self.loop.run_until_idle()
+        if run:
+            self.loop.run_until_idle()
 
     def state(self):
         return (self.pairing.description.state_num if self.pairing.description else None, len(self.log))
@@ -106,7 +109,7 @@ class Rig:
 def build(sym, last, arg=None):
     """-> (advertisement bytes, model verdict dict(authentic, inner_ok, gsn, iid, value8))."""
     iid, val = 11, struct.pack("<Q", 0x1234)
-    rel = {"+1": 1, "+2": 2, "+50": 50, "+99": 99, "same": 0, "-1": -1, "-5": -5, "+100": 100, "+150": 150}
+    rel = {"+1": 1, "+2": 2, "+3": 3, "+50": 50, "+99": 99, "same": 0, "-1": -1, "-5": -5, "+100": 100, "+150": 150}
     if sym in rel:
         g = last + rel[sym]
         if g < 0 or g > 0xFFFF:
@@ -157,7 +160,7 @@ def build(sym, last, arg=None):
     raise core.HarnessError(sym)
 
 
-SYMS = ["+1", "+2", "+50", "+99", "same", "-1", "-5", "+100", "+150", "wrong-key", "other-adv-id-aad", "other-header-id", "foreign-id-consistent", "inner-mismatch", "inner-mismatch-old", "unknown-iid", "old:0", "old:1", "old:40", "old:98", "empty-payload", "neighbour:+1", "cross:from-neighbour", "db-swap", "+1:iid12", "+1:iid15"]
+SYMS = ["pair:+2|+2", "pair:+3|+2", "pair:+1|+2", "pair:+50|+99", "+1", "+2", "+50", "+99", "same", "-1", "-5", "+100", "+150", "wrong-key", "other-adv-id-aad", "other-header-id", "foreign-id-consistent", "inner-mismatch", "inner-mismatch-old", "unknown-iid", "old:0", "old:1", "old:40", "old:98", "empty-payload", "neighbour:+1", "cross:from-neighbour", "db-swap", "+1:iid12", "+1:iid15"]
 
 
 def _utf8(b):
@@ -189,6 +192,37 @@ def step(rig: Rig, sym, arg=None):
             out.append(("genuine-next-notification-rejected:neighbour", {"sym": sym, "state": rig.state_b()}))
         rig.model_last_b = g
         rig.neighbour_payloads.append((g, payload))
+        return out, True
+    if sym.startswith("pair:"):
+        # two advertisements reach the scanner callback within ONE loop iteration (a burst, a scanner that batches): judged one after the other
+        # by the model, observed after both
+        a, b = sym[5:].split("|")
+        ba, bb = build(a, last), build(b, last)
+        if ba is None or bb is None:
+            return [], False
+        before = rig.state()
+        nlog = len(rig.log)
+        try:
+            rig.feed(ba[0], run=False)
+            rig.feed(bb[0], run=False)
+            rig.loop.run_until_idle()
+        except Exception as e:  # noqa: BLE001
+            return [(f"scanner-callback-raises:{type(e).__name__}:pair", {"sym": sym, "err": str(e)[:160]})], True
+        cur, want = last, []
+        for _, m in (ba, bb):
+            if m["authentic"] and m.get("inner_ok") and m["gsn"] > cur:
+                cur = m["gsn"]
+                want.append(m["gsn"])
+        new = rig.log[nlog:]
+        out = []
+        det = {"sym": sym, "last": last, "delivered": len(new), "expected_deliveries": len(want), "state_after": rig.state()[0], "expected_state": cur}
+        if len(new) > len(want):
+            out.append(("notification-accepted-though-stale:two-in-one-loop-iteration", det))
+        elif len(new) < len(want):
+            out.append(("genuine-notification-lost:two-in-one-loop-iteration", det))
+        if rig.state()[0] != cur and not out:
+            out.append(("state-number-after-two-notifications-in-one-loop-iteration-wrong", det))
+        rig.model_last = cur
         return out, True
     if sym == "restart":
         # the process ends and a new one starts on the same characteristic cache: a new controller, the pairings loaded again, no discovery yet.
@@ -411,7 +445,7 @@ def run(ctx):
     depth = 2 if quick else 5
     work = [(b, depth, SYMS) for b in bases]
     # deeper on the symbols that carry state across steps (database replacement, the neighbour pairing, per-characteristic history)
-    CARRY = ["+1", "+1:iid12", "+1:iid15", "db-swap", "neighbour:+1", "cross:from-neighbour", "same", "old:1", "unknown-iid", "regular-adv", "reload-pairing", "restart", "-1"]
+    CARRY = ["+1", "+1:iid12", "+1:iid15", "db-swap", "neighbour:+1", "cross:from-neighbour", "same", "old:1", "unknown-iid", "regular-adv", "reload-pairing", "restart", "-1", "pair:+2|+2", "pair:+3|+2", "pair:+1|+1", "pair:+2|+3"]
     work += [(b, 4 if quick else 6, CARRY) for b in ([300] if quick else [1, 300, 65500])]
     ctx.pmap(_bfs, work)
     # broadcasts while the pairing holds a GATT session (the once-per-session bump of the state number, the roll-over and its key request in flight)
